@@ -12,6 +12,7 @@ from common import cz, clist, cnat
 
 LEVEL = "proof"
 THEOREMS = "Props/C18.v"
+EXTS = ["xtc", "trr", "dcd", "dtr"]
 RULE = ("op histories over {read(n), read(), seek(k), seek(d,1), tell, len} on two handles; in-range stream is "
         "generated against the abstract position, over-read stream adds reads past the end; a case is "
         "non-trivial when it contains a read and a seek or tell; distinct by hash of (format,T,ops,atom_indices)")
